@@ -2,7 +2,7 @@
 
 MODULE = "DtailModel.Props.C13"
 # scripts with real waits: a disagreement counts only if it reproduces when re-run alone (flake policy, DESIGN 2.3)
-TIMED_OPS = ("c13.script", "c13.tail")
+TIMED_OPS = ("c13.script", "c13.tail", "c13.session")
 GROUPS = ["C13"]
 LOGGER = "none"
 JOBS = 16
@@ -47,8 +47,28 @@ def gen_tail(rng, budget):
         yield f"c13.tail {cap} {','.join(ops)}"
 
 
+def gen_session(rng, n):
+    """whole sessions (several follow commands each) through ServerHandler.Write / Shutdown on one shared tail limiter"""
+    yield "c13.session 1 N0x1,N1x2,K1,K0"
+    yield "c13.session 2 N0x3,N1x2,K0,N2x1,K1,K2"
+    for _ in range(n):
+        cap = rng.choice([1, 1, 2, 3])
+        ops, live, nxt = [], [], 0
+        for _ in range(rng.randrange(3, 9)):
+            if live and rng.random() < 0.45:
+                s = rng.choice(live)
+                live.remove(s)
+                ops.append(f"K{s}")
+            else:
+                ops.append(f"N{nxt}x{rng.choice([1, 2, 2, 3])}")
+                live.append(nxt)
+                nxt += 1
+        yield f"c13.session {cap} {','.join(ops)}"
+
+
 def gen(rng, budget, tier):
     yield from gen_tail(rng, TAIL_BUDGET[tier])
+    yield from gen_session(rng, 40 if tier == "quick" else 800)
     # the witness of the repaired defect first
     yield "c13.script 1 S0,S1,C1,S2,F0,F2"
     yield "c13.script 2 D0,D1,D2,D3,D4,D5,S6,S7,F6,F7"     # sessions gone before their reads start
